@@ -13,6 +13,7 @@ import (
 
 	"github.com/titpetric/vuego/formatter"
 	"golang.org/x/net/html"
+	"golang.org/x/net/html/atom"
 )
 
 func init() { props["C19"] = runC19 }
@@ -70,6 +71,9 @@ func c19Parse(src string) c19Tree {
 	if strings.HasPrefix(tb, "<!DOCTYPE") || strings.HasPrefix(tb, "<html") {
 		doc, _ := html.Parse(strings.NewReader(body))
 		nodes = []*html.Node{doc}
+	} else if ctx := c19FragmentContext(body); ctx != "" {
+		// a partial that starts with a table-scoped element only means something inside its table context (HTML fragment parsing)
+		nodes, _ = html.ParseFragment(strings.NewReader(body), &html.Node{Type: html.ElementNode, Data: ctx, DataAtom: atom.Lookup([]byte(ctx))})
 	} else {
 		nodes = parseFragment(body)
 	}
@@ -104,6 +108,27 @@ func c19Parse(src string) c19Tree {
 	t.texts = []string{strings.Join(strings.Fields(allText.String()), " ")}
 	sort.Strings(t.mustaches)
 	return t
+}
+
+var c19FirstTag = regexp.MustCompile(`^\s*<([a-zA-Z][a-zA-Z0-9]*)[\s/>]`)
+
+// c19FragmentContext: the element a fragment has to be parsed in when its first tag is table-scoped ("" = body), independent of the library
+func c19FragmentContext(body string) string {
+	m := c19FirstTag.FindStringSubmatch(body)
+	if m == nil {
+		return ""
+	}
+	switch strings.ToLower(m[1]) {
+	case "td", "th":
+		return "tr"
+	case "tr":
+		return "tbody"
+	case "thead", "tbody", "tfoot", "caption", "colgroup":
+		return "table"
+	case "col":
+		return "colgroup"
+	}
+	return ""
 }
 
 func c19SplitFM(src string) (string, string) {
@@ -333,6 +358,18 @@ func runC19(r *Run, replay *Case) {
 		"---\na: 1\n  ---\nb: 2\n---\n<ul><li>x</li></ul>\n",
 	} {
 		r.Add(c19Eval("frontmatter-fence-like", fm))
+	}
+	// partials that begin with a table-scoped element, and tags written one attribute per line: whatever white space follows the tag name
+	for _, first := range []string{"tr", "td", "th", "thead", "tbody", "tfoot", "caption", "colgroup", "col", "div", "li", "p"} {
+		for _, sep := range []string{" ", "\n", "\t", "\n  ", "\r\n  "} {
+			inner := map[string]string{"tr": "<td>{{ row.name }}</td><td>{{ row.total }}</td>", "td": "{{ n }}", "th": "H", "thead": "<tr><th>a</th></tr>", "tbody": "<tr><td>1</td></tr>", "tfoot": "<tr><td>f</td></tr>",
+				"caption": "cap {{ t }}", "colgroup": "<col span=\"2\">", "col": "", "div": "<b>x</b> y", "li": "item", "p": "text"}[first]
+			src := "<" + first + sep + `v-for="row in rows"` + sep + `:key="row.id"` + sep + ">" + inner + "</" + first + ">"
+			if first == "col" {
+				src = "<" + first + sep + `span="2"` + sep + ">"
+			}
+			r.Add(c19Eval("tag-layout:"+first, src+"\n"))
+		}
 	}
 	for _, raw := range []string{"<script>if (a < b && c > d) { go(); }</script>", "<div><script>items.forEach(i => init(i));</script></div>", "<style>ul > li { margin: 0 }</style>", "<script>x = 1 & 2;</script><p>t</p>", "<script>  padded <b>  </script>"} {
 		r.Add(c19Eval("raw-one-line", raw))
